@@ -8,7 +8,7 @@
    every run); inet_pton/inet_ntop/uuid_parse/uuid_unparse are universally quantified with named
    hypotheses.                                                                                  *)
 From OlaBase Require Import Bytes.
-From C20 Require Import Libc Spec Model ProofsDigits ProofsInt ProofsHex ProofsText.
+From C20 Require Import Libc Spec Model Ipv6 ProofsDigits ProofsInt ProofsHex ProofsText ProofsIpv6 ProofsIpv6v4.
 Local Open Scope N_scope.
 
 (* ------------------------------------------------------------------------------------------------
@@ -308,6 +308,24 @@ Theorem c20_cid_roundtrip : forall (parse : str -> option (list N)) (unparse : l
 Proof. exact cid_roundtrip. Qed.
 Print Assumptions c20_cid_roundtrip.
 
+(* IPv6 text.  inet_ntop / inet_pton (AF_INET6) are the ordinary definitions of Ipv6.v (RFC 5952
+   form as glibc prints it; glibc's inet_pton6 grammar), validated against the platform on every
+   run.  For every 128-bit address the text is at most 39 characters (so it fits the
+   INET6_ADDRSTRLEN = 46 byte buffer of IPV6Address::ToString, and a buffer of 39 bytes is one
+   too small for the NUL) ...                                                                    *)
+Theorem c20_ipv6_length : forall a, length a = 16%nat -> bytes_ok a = true ->
+  (length (ipv6_to_text a) <= 39)%nat /\ (length (ipv6_to_text a) <= 45)%nat.
+Proof. intros a Hl Hb. pose proof (ipv6_text_length a Hl Hb). split; [assumption|lia]. Qed.
+Print Assumptions c20_ipv6_length.
+
+(* ... and parsing the text gives the address back, for EVERY 128-bit address (all three forms
+   glibc prints: pure hex groups, "::" compression, embedded IPv4), both for the libc pair and
+   through IPV6Address::FromString.                                                              *)
+Theorem c20_ipv6_roundtrip : forall a, length a = 16%nat -> bytes_ok a = true ->
+  ipv6_of_text (ipv6_to_text a) = Some a /\ ipv6_from_string (ipv6_to_text a) = Some a.
+Proof. exact ipv6_roundtrip. Qed.
+Print Assumptions c20_ipv6_roundtrip.
+
 (* ---- non-vacuity ------------------------------------------------------------------------------- *)
 (* the hypotheses on the external functions are jointly satisfiable ... *)
 Example ex_net_hyps_sat :
@@ -350,3 +368,15 @@ Example ex_dec_form : dec_form [32; 45; 49; 50; 120] true 12 [120].
 Proof.
   exists [32; 45; 49; 50]. repeat split. exists [32], [45], [49; 50]. repeat split; auto. discriminate.
 Qed.
+
+(* the 39 character bound is attained (pure hex form), the compressed and the embedded-IPv4 forms *)
+Example ex_ipv6_39 : length (ipv6_to_text (repeat 255 16)) = 39%nat /\
+  ipv6_of_text (ipv6_to_text (repeat 255 16)) = Some (repeat 255 16).
+Proof. vm_compute. split; reflexivity. Qed.
+Example ex_ipv6_forms :
+  ipv6_to_text (repeat 0 15 ++ [1]) = [58; 58; 49] /\
+  ipv6_to_text (repeat 0 10 ++ [255; 255; 1; 2; 3; 4]) = [58; 58; 102; 102; 102; 102; 58; 49; 46; 50; 46; 51; 46; 52] /\
+  v4_form (words_of_bytes (repeat 0 10 ++ [255; 255; 1; 2; 3; 4])) = true /\
+  v4_form (words_of_bytes (repeat 0 15 ++ [1])) = false /\
+  ipv6_of_text (ipv6_to_text (repeat 0 10 ++ [255; 255; 1; 2; 3; 4])) = Some (repeat 0 10 ++ [255; 255; 1; 2; 3; 4]).
+Proof. vm_compute. repeat split; reflexivity. Qed.
